@@ -11,6 +11,15 @@ CHECKS = {
     "C02": ("who-may-construct/field-write discipline on MIR + trace-partitioned abstract interpretation (linear forms)",
             "Canonical-form discipline (field visibility, every aggregate/field write constant-canonical or post-dominated by normalize), EXACT/SAT-SIDE of total_nanoseconds, from_total_nanoseconds, from_parts, the 64-bit accessors, Unit x i64 for all nine units, the std bridge, integer-exact compose.",
             "3.C02"),
+    "C03": ("decision analysis by trace-partitioned abstract interpretation of the comparison MIR",
+            "cmp/partial_cmp/lt/le/gt/ge/min/max/eq and the Unit comparisons over two symbolic canonical durations: every returned Ordering/bool is implied by the order of the signed counts; == only for equal counts or exact negations within a century.",
+            "3.C03"),
+    "C04": ("frame / operand-flow rule on MIR via abstract interpretation with Duration-level linear forms",
+            "For the ten Epoch operator impls: result scale is self's, result duration is self.duration +/- the operand (arg, unit*1, seconds*Unit::Second), assign forms store it; Epoch-Epoch converts the right operand to the left's scale.",
+            "3.C04"),
+    "C05": ("finite-partition abstract evaluation (36 scale pairs) + table agreement with an independent calendar oracle",
+            "to_time_scale evaluated per ordered pair of the six uniform scales with symbolic elapsed time: result = self.duration + constant, constant equals the oracle offset; reference constants, prime/gregorian offsets and to_/from_ wrappers agree with the oracle.",
+            "3.C05"),
 }
 
 NOT_YET = {}
